@@ -82,6 +82,13 @@ def rstep (r : RSt) (toks : List String) : RSt × String :=
   | ["rev_iter"] => obs r (revIterFrom W r.a r.a.len) fmtNatList
   | ["rev_iter_from", k] => match parseNat k with
     | some k => obs r (revIterFrom W r.a k) fmtNatList | none => bad
+  -- the same observers through a borrowed slice view (`BitFieldVec<W, &[W]>` at another word offset)
+  | ["sv_get", i] => match parseNat i with | some i => obs r (get W r.a i) toString | none => bad
+  | ["sv_unaligned", i] => match parseNat i with
+    | some i => obs r (getUnaligned W r.a i) toString | none => bad
+  | ["sv_iter"] => obs r (iterFrom W r.a 0) fmtNatList
+  | ["sv_rev_iter"] => obs r (revIterFrom W r.a r.a.len) fmtNatList
+  | ["sv_eq"] => obs r (eq W r.a r.b) fmtBool
   | ["eq"] => obs r (eq W r.a r.b) fmtBool
   | ["clone"] => reply { r with b := r.a } "ok"
   | ["swapab"] => reply { r with a := r.b, b := r.a } "ok"
